@@ -393,6 +393,51 @@ def collect_program(rng):
     return "\n".join(src) + "\n", expect
 
 
+ENDINGS = [("return", "return 1", "done"), ("error string", "error('boom')", "error"), ("error table", "error({code = 7})", "error"),
+           ("runtime error", "local z = nil z.x = 1", "error")]
+
+
+def ending_program(rng):
+    """a cpu-limited context left by return / error string / error table / runtime error while marked values are pending,
+    with or without a finaliser that needs more cpu than the context has left: the exit finalisers run INSIDE the context —
+    metered and stopped by its limit (status killed, the finalisers after the heavy one skipped, releases made, cpu used
+    below the limit) — whatever way the body ended"""
+    limit = rng.choice([20000, 50000])
+    n = 2 + rng.below(5)
+    heavy_at = rng.below(n) if rng.chance(2, 3) else -1
+    items = []
+    src = ["local ctx = runtime.callcontext({kill={cpu=%d}}, function()" % limit]
+    for i in range(n):
+        if i == heavy_at:
+            src.append("  H = setmetatable({}, {__gc = function() log('gc:heavy') for i = 1, 10000000 do end log('heavy finished') end})")
+            items.append(["H", "l:gc:heavy", False])
+        elif rng.chance(1, 2):
+            src.append("  v%d = setmetatable({}, gcmt('g%d'))" % (i, i))
+            items.append(["v%d" % i, "gc:g%d" % i, False])
+        elif rng.chance(1, 2):
+            src.append("  v%d = mkud('v%d', gcmt('g%d'))" % (i, i, i))
+            items.append(["v%d" % i, "gc:g%d" % i, True])
+        else:
+            src.append("  v%d = mkud('v%d')" % (i, i))
+            items.append(["v%d" % i, None, True])
+    name, stmt, st = rng.choice(ENDINGS)
+    src.append("  " + stmt)
+    src.append("end)")
+    src.append("log(ctx.status)")
+    src.append("log(tostring(ctx.used.cpu < %d))" % limit)
+    expect = []
+    killed = False
+    for it in reversed(items):
+        if it[1]:
+            expect.append(it[1])
+            if it[0] == "H":
+                killed = True
+                break
+    expect.extend("rel:" + it[0] for it in reversed(items) if it[2])
+    expect += ["l:" + ("killed" if killed else st), "l:true", "close"]
+    return "\n".join(src) + "\n", expect
+
+
 def pool_ops(ops):
     return [o[:1] if o[0] in ("PF", "PR", "AF", "AR") else o for o in ops if o[0] in ("M", "G", "PF", "PR", "AF", "AR")]
 
@@ -583,7 +628,7 @@ def lua_program(rng):
                     tbc.append(c)
                 body(depth + 1, inner, indent + "  ")
                 if kind == "error":
-                    src.append("%s  error('boom')" % indent)
+                    src.append("%s  %s" % (indent, rng.choice(["error('boom')", "error('boom')", "error({code = 7})", "local z = nil z.x = 1"])))
                 elif kind == "kill":
                     src.append("%s  runtime.killcontext()" % indent)
                 src.append("%send)%s log(st) end" % (indent, form[2]))
@@ -883,6 +928,10 @@ def run(tier, seed):
     for j in range(ncol):
         src, expect = collect_program(rng)
         lua_cases.append(("collect%d" % j, src, "mockgc=1", expect, "generated"))
+    nend = 120 if tier == "quick" else 3000
+    for j in range(nend):
+        src, expect = ending_program(rng)
+        lua_cases.append(("ending%d" % j, src, "", expect, "generated"))
     # collector-dependent programs: multiset checks only
     gc_src = ("local names = {}\nfor i = 1, 20 do local t = setmetatable({}, gcmt('d' .. i)) end\n"
               "for i = 1, 5 do _G['k' .. i] = setmetatable({}, gcmt('k' .. i)) end\n"
